@@ -169,6 +169,15 @@ class QueryPlanner:
                 return SubSelectStep(select, self.cte_results[table_name], table_name=table_name)
 
         fetch_df_select = copy.deepcopy(select)
+
+        # CTEs planned as steps of their own (their bodies may read other integrations) are not defined again
+        # in the integration, unless the query still reads one of them by name
+        if isinstance(fetch_df_select, Select) and fetch_df_select.cte is not None:
+            cte_list, fetch_df_select.cte = fetch_df_select.cte, None
+            names = [cte.name.parts[-1] for cte in cte_list]
+            if any(name not in self.cte_results for name in names) or self.reads_planned_cte(fetch_df_select, names):
+                fetch_df_select.cte = cte_list
+
         self.prepare_integration_select(integration_name, fetch_df_select)
 
         # remove predictor params
@@ -263,6 +272,19 @@ class QueryPlanner:
             'user_functions': user_functions
         }
 
+    def reads_planned_cte(self, query, names=None):
+        # does the query read, by name, a CTE that is planned as a step of its own (it is not a table of any integration)
+        if names is None:
+            names = self.cte_results
+        found = []
+
+        def find_cte_tables(node, is_table, **kwargs):
+            if is_table and isinstance(node, Identifier) and len(node.parts) == 1 and node.parts[0] in names:
+                found.append(node)
+
+        query_traversal(query, find_cte_tables)
+        return len(found) > 0
+
     def get_nested_selects_plan_fnc(self, main_integration, force=False):
         # returns function for traversal over query and inject fetch data query instead of subselects
         def find_selects(node, **kwargs):
@@ -271,7 +293,8 @@ class QueryPlanner:
                 if force or (
                         len(query_info2['integrations']) > 1 or
                         main_integration not in query_info2['integrations'] or
-                        len(query_info2['mdb_entities']) > 0
+                        len(query_info2['mdb_entities']) > 0 or
+                        self.reads_planned_cte(node)
                 ):
                     # need to execute in planner
 
